@@ -1022,8 +1022,8 @@ def run_regressors(ctx, n_runs):
 
 
 def PLAN(quick):
-    return [(run_parafac, 54 if quick else 396), (run_nn_hals, 18 if quick else 120), (run_hals_nnls, 36 if quick else 300),
-            (run_tucker, 18 if quick else 120), (run_parafac2, 18 if quick else 72), (run_p2_linestep, 30 if quick else 120), (run_tr_als, 12 if quick else 80),
+    return [(run_parafac, 72 if quick else 396), (run_nn_hals, 18 if quick else 120), (run_hals_nnls, 36 if quick else 300),
+            (run_tucker, 18 if quick else 120), (run_parafac2, 24 if quick else 72), (run_p2_linestep, 30 if quick else 120), (run_tr_als, 12 if quick else 80),
             (run_cmtf, 12 if quick else 80), (run_regressors, 12 if quick else 60)]
 
 
